@@ -132,6 +132,10 @@ for n, lens in ((1, (1,)), (2, (2, 3, 4, 5)), (3, (3, 4, 5))):
                        "calculate_score: prefer_prefix raises the score by 0..=8 (exactly 8 at position 0)", unwind=max(h + 3, 7), bound=bound, cost=2)
 U("c10-prefix-term-no-overflow", "score", "c10_prefix_term_no_overflow", {"C10": "quick", "C04": "quick"}, "complete", SCORE_FNS,
   "for every match start position < 70000 (all base configs, prefer_prefix on): calculate_score's prefix term neither overflows nor leaves 16..=44 for a one-character match")
+for n in (2520, 2521, 2600):
+    UC("c03-cs-long-needle-%d" % n, "score", "cs_long_needle_no_wrap::<%d>()" % n, {"C03": "quick" if n == 2521 else "thorough", "C10": "quick" if n == 2521 else "thorough"}, "bounded", SCORE_FNS,
+       "calculate_score on %d consecutive matches: no arithmetic overflow, result == unwrapped value capped at u16::MAX" % n, unwind=n + 3,
+       bound="one concrete input: haystack == needle == 'a' x %d (the witness family of the Verus row bound)" % n, cost=2, timeout=1500)
 UC("c03-cs-canary", "score", "cs_canary()", {"C03": "quick", "C02": "quick"}, "bounded", [], "canary", unwind=8, expect="fail", no_cover=True)
 
 # prefilter (ASCII), greedy, optimal, exact: bounded
@@ -203,14 +207,14 @@ for (h, n) in ((3, 2), (4, 2), (4, 3), (5, 3), (6, 3), (6, 4)):
         for arm in (0, 1, 2, 3):
             if k == 1 and arm in (1, 2) and (h, n) != (4, 3):
                 continue  # the bonus configuration only matters for which occurrence wins; covered by arms 0 and 3
-            tier = "quick" if h <= 5 else "thorough"
+            tier = "quick" if h <= 4 else "thorough"
             bound = "ASCII haystack %d, needle %d, %s, %s" % (h, n, CFGNAME[k], ARMNAME[arm])
             tag = "h%d-n%d-k%d-a%d" % (h, n, k, arm)
             UC("c05-sub-ascii-dec-" + tag, "exact", "sub_ascii_decision::<%d,%d,%d,%d>()" % (h, n, k, arm), {"C05": tier, "C10": tier}, "bounded", EXACT_FNS[1:3],
                "substring_match_ascii: Some <=> the needle occurs contiguously in the normalised haystack", unwind=max(h + 3, 7), bound=bound, cost=6)
             UC("c05-sub-ascii-wit-" + tag, "exact", "sub_ascii_witness::<%d,%d,%d,%d>()" % (h, n, k, arm), {"C05": tier, "C02": tier, "C03": tier}, "bounded", EXACT_FNS[1:],
                "substring_match_ascii: leftmost occurrence with the highest first-char bonus; contiguous valid witness; score == scheme; None appends nothing", unwind=max(h + 3, 7), bound=bound, cost=7)
-    if (h, n) in ((4, 2), (5, 3)):
+    if (h, n) in ((4, 2), (4, 3)):
         for arm in (0, 1):
             UC("c03-sub-ascii-agree-h%d-n%d-a%d" % (h, n, arm), "exact", "sub_ascii_agree::<%d,%d,0,%d>()" % (h, n, arm), {"C03": "quick"}, "bounded", EXACT_FNS[1:], "substring_match_ascii: variants agree", unwind=max(h + 3, 7), bound="ASCII haystack %d, needle %d, %s" % (h, n, ARMNAME[arm]))
 UC("c05-exact-canary", "exact", "exact_canary()", {"C05": "quick"}, "bounded", [], "canary", unwind=8, expect="fail", no_cover=True)
@@ -229,12 +233,7 @@ for alg, (aname, fns) in ALGS.items():
             if k == 1 and (h, n) != (4, 2):
                 continue
             heavy = (alg == 0 and n >= 2 and n < h)
-            if alg == 0 and (h, n) in ((5, 3), (5, 2)):
-                tier = "thorough"
-            elif (h, n) == (5, 2) and alg != 0:
-                tier = "thorough"
-            else:
-                tier = "quick"
+            tier = "quick" if (h, n) in ((3, 0), (2, 3), (3, 3), (4, 2)) else "thorough"
             tag = "%s-h%d-n%d-k%d" % (aname, h, n, k)
             bound = "entry point %s, Ascii x Ascii, haystack %d, needle %d, %s" % (aname, h, n, CFGNAME[k])
             dp = dict((p, tier) for p in decp)
@@ -328,7 +327,7 @@ for rep in (1, 2, 3, 4):
             shapes = ((4, 2),) if alg <= 2 else ()
         for (h, n) in shapes:
             heavy = alg == 0 and 2 <= n < h
-            tier = "thorough" if (h, n) == (5, 3) or (heavy and rep == 2) else "quick"
+            tier = "quick" if ((rep == 1 and (h, n) in ((4, 2), (3, 3))) or (rep == 2 and (h, n) == (4, 2) and not heavy) or rep in (3, 4)) else "thorough"
             tag = "r%d-%s-h%d-n%d" % (rep, aname, h, n)
             bound = "entry point %s, %s, haystack %d, needle %d, chars from the model domain (ASCII + 16 non-ASCII), DEFAULT config" % (aname, REPNAME[rep], h, n)
             dp = dict((p, tier) for p in decp)
@@ -360,7 +359,7 @@ for (k1, n1, k2, n2) in ((0, 0, 1, 0), (0, 0, 1, 1), (1, 1, 0, 0), (2, 0, 3, 0),
        "Pattern::score/indices of [%s%s atom (1 char), %s%s atom (2 chars)] == conjunction with negation, sum of positive scores, indices appended in atom order; the caller's matcher may carry any earlier case/normalisation setting" % ("negated " if n1 else "", KN[k1], "negated " if n2 else "", KN[k2]),
        unwind=8, bound="ASCII haystack 3 over {a,b,c,A,space}, needles 1 and 2 chars over {a,b,c,space}, symbolic ignore_case/normalize per atom, DEFAULT bonuses", cost=9 if heavy else 5, timeout=1500)
 UC("c15-pattern-empty", "pattern", "pattern_empty()", {"C15": "quick"}, "bounded", PAT_FNS[2:], "an empty pattern matches everything with score 0 and appends nothing", unwind=8, bound="ASCII haystack 3")
-UC("c15-pattern-canary", "pattern", "pattern_canary()", {"C15": "quick"}, "bounded", [], "canary", unwind=8, expect="fail", no_cover=True)
+UC("c15-pattern-canary", "pattern", "pattern_canary()", {"C15": "quick", "C14": "quick"}, "bounded", [], "canary", unwind=8, expect="fail", no_cover=True)
 PARSE_STUB = [("crate::pattern::Atom::new_inner", "crate::pattern::verif_pattern::recording_new_inner")]
 for L in (1, 2, 3, 4, 5):
     UC("c14-parse-markers-%d" % L, "pattern", "parse_markers::<%d>()" % L, {"C14": "quick"}, "bounded", ["pattern::Atom::parse"],
